@@ -205,6 +205,62 @@ fn c19_estimate_default() {
     core::mem::forget((prev, msg));
 }
 
+/// The same on the REAL sequence parser (memchr -> naive loop, see stubs.rs): every three-digit
+/// sequence field of the previous chunk's name.
+#[kani::proof]
+#[kani::unwind(24)]
+#[kani::stub(alloc::fmt::format, crate::stubs::fmt_format)]
+#[kani::stub(core::slice::memchr::memchr, crate::stubs::memchr_naive)]
+#[kani::stub(core::slice::memchr::memrchr, crate::stubs::memrchr_naive)]
+fn c19_estimate_default_real_parser() {
+    let (digits, n) = any_digits();
+    let seq_opt: Option<usize> = Some(n);
+    // the upload time is concrete: chrono's arithmetic on a symbolic instant does not finish here
+    // (> 30 min) and is not what the property is about (instant arithmetic: C08)
+    let secs: i64 = 1_723_552_410;
+    let t = match DateTime::from_timestamp(secs, 0) {
+        Some(t) => t,
+        None => panic!("harness: timestamp"),
+    };
+    let prev = chunk_id(digits, b'I', 5, Some(t));
+    // two cuts: first 3 chunks (2..=4), second 6 chunks (5..=10); waveform/channel symbolic
+    let w: [u8; 2] = kani::any();
+    let c: [u8; 2] = kani::any();
+    let msg = vcp(vec![cut(0, w[0], c[0]), cut(1, w[1], c[1])]);
+    let got = estimate_next_chunk_time(&prev, &msg, None);
+    let want_secs: Option<i64> = match seq_opt {
+        None => None,
+        Some(seq) => {
+            if seq < 1 || seq > 55 {
+                None
+            } else if seq == 55 {
+                Some(10)
+            } else if seq + 1 > 10 {
+                None
+            } else {
+                let k = if seq + 1 <= 4 { 0 } else { 1 };
+                Some(if w[k] == 1 { 11 } else if c[k] == 0 { 7 } else { 4 })
+            }
+        }
+    };
+    match (got, want_secs) {
+        (None, None) => {}
+        (Some(g), Some(s)) => {
+            assert!(g.timestamp_millis() == (secs + s) * 1000, "C19: wrong next-chunk estimate");
+            assert!(g >= t, "C19: estimate earlier than the previous upload time");
+        }
+        (Some(_), None) => panic!("C19: estimate given where none is expected"),
+        (None, Some(_)) => panic!("C19: no estimate where one is expected"),
+    }
+    wit!(seq_opt == Some(55) && got.is_some());
+    wit!(seq_opt == Some(4) && w[1] == 1);
+    wit!(seq_opt == Some(9) && w[1] != 1 && c[1] == 0);
+    wit!(seq_opt == Some(10) && got.is_none());
+    wit!(seq_opt == Some(0));
+    wit!(seq_opt == Some(999));
+    core::mem::forget((prev, msg));
+}
+
 /// Estimate WITH history: after 11 recorded samples under the characteristics of the next chunk,
 /// the estimate is upload time + mean of the LAST TEN durations (integer ms) + (floor(mean attempts)
 /// - 1) s; samples recorded under other characteristics do not count.  Window capped at 10.
